@@ -434,7 +434,7 @@ func (c *ctxConn) Read(b []byte) (n int, err error) {
 func (c *ctxConn) Write(b []byte) (n int, err error) {
 	for {
 		if err = c.writeCtx.Err(); err != nil {
-			return 0, err
+			return n, err
 		}
 
 		deadline := time.Now().Add(c.writeTimeout)
@@ -448,12 +448,16 @@ func (c *ctxConn) Write(b []byte) (n int, err error) {
 			return 0, err
 		}
 
-		n, err = c.conn.Write(b)
+		// A timed out write may have been partial: resume after the bytes
+		// already written instead of sending them again.
+		var written int
+		written, err = c.conn.Write(b[n:])
+		n += written
 		if err != nil {
 			if netErr, ok := err.(net.Error); ok && netErr.Timeout() && netErr.Temporary() {
 				continue
 			}
-			return 0, err
+			return n, err
 		}
 
 		return n, nil
